@@ -275,7 +275,9 @@ class Inliner:
         from .normalize import unroll_unpacked_comprehension, beta_reduce, fold_format_constants, tuple_state_split, propagate_copies, merge_twin_locals, split_parallel_assign, scalar_replace, desugar_tables, matchify, might_apply, might_dispatch, might_matchify, might_unroll, normalize_formats, unroll_literal_loops
 
         cand = self._has_candidate(f.raw)
-        fmt = _might_tuple_state(f.raw) or might_apply(f.raw) or might_dispatch(f.raw, f.module.top) or might_unroll(f.raw, f.module.top) or might_matchify(f.raw) or cand
+        from .normalize import fuse_comprehension_loops, might_fuse
+
+        fmt = _might_tuple_state(f.raw) or might_apply(f.raw) or might_dispatch(f.raw, f.module.top) or might_unroll(f.raw, f.module.top) or might_matchify(f.raw) or might_fuse(f.raw) or cand
         if not cand and not fmt:
             out = self._roles(f, f.raw)
             self.cache[key] = out
@@ -298,11 +300,19 @@ class Inliner:
                 merge_twin_locals(node)
                 beta_reduce(node)
                 fold_format_constants(node)
+                from .normalize import desugar_attr_builtins, resolve_literal_splats
+
+                resolve_literal_splats(node)       # `f(**given)` / `f(*rest)` with the literal a variadic helper parameter was bound to
             if fmt or changed:
                 changed |= desugar_tables(node, f.module.top)  # before scalar replacement: the rows may be private records
                 changed |= scalar_replace(node, f.module)
                 changed |= tuple_state_split(node)
                 changed |= unroll_literal_loops(node, f.module.top)
+                changed |= fuse_comprehension_loops(node)
+                if expanded:
+                    from .normalize import desugar_attr_builtins
+
+                    desugar_attr_builtins(node)    # setattr(o, "k", v) / getattr(o, "k") left by an unrolled `for k, v in given.items()`
                 changed |= normalize_formats(node, f.module.top)
                 changed |= desugar_tables(node, f.module.top)
                 changed |= matchify(node)
@@ -686,8 +696,6 @@ class Inliner:
         if any(d != "staticmethod" for d in decos):
             return None
         a = node.args
-        if a.vararg or a.kwarg:
-            return None
         n_yield = 0
         for n in _walk_same_func(node):
             if isinstance(n, (ast.YieldFrom, ast.Await, ast.Global, ast.Nonlocal)):
@@ -837,19 +845,37 @@ class Inliner:
         pos = list(call.args)
         if recv is not None:
             pos = [recv] + pos
+        if any(isinstance(v, ast.Starred) for v in pos) or any(k.arg is None for k in call.keywords):
+            raise _NoInline("* / ** at the call site")
         if len(pos) > len(params):
-            raise _NoInline("too many positional arguments")
+            if a.vararg is None:
+                raise _NoInline("too many positional arguments")
+            # `def h(x, *rest)`: the surplus positional arguments are the tuple `rest`
+            actual[a.vararg.arg] = ast.copy_location(ast.Tuple([copy.deepcopy(v) for v in pos[len(params):]], ast.Load()), call)
+            pos = pos[: len(params)]
+        elif a.vararg is not None:
+            actual[a.vararg.arg] = ast.copy_location(ast.Tuple([], ast.Load()), call)
         for p, v in zip(params, pos):
             actual[p] = v
+        extra_kw = []
         for k in call.keywords:
-            if k.arg in actual or k.arg not in params + kwonly:
+            if k.arg in actual:
                 raise _NoInline("keyword mismatch")
+            if k.arg not in params + kwonly:
+                if a.kwarg is None:
+                    raise _NoInline("keyword mismatch")
+                extra_kw.append(k)
+                continue
             actual[k.arg] = k.value
+        if a.kwarg is not None:
+            # `def h(x, **given)`: the surplus keyword arguments are the dict `given`, in call order
+            actual[a.kwarg.arg] = ast.copy_location(ast.Dict([ast.Constant(k.arg) for k in extra_kw], [copy.deepcopy(k.value) for k in extra_kw]), call)
         for p in params + kwonly:
             if p not in actual:
                 if p not in defaults:
                     raise _NoInline(f"missing argument {p}")
                 actual[p] = defaults[p]
+        variadic = {x.arg for x in (a.vararg, a.kwarg) if x is not None}
         self.counter += 1
         tag = f"__i{self.counter}"
         body = copy.deepcopy(node.body)
@@ -864,7 +890,7 @@ class Inliner:
             arg_names |= {n.id for n in ast.walk(v) if isinstance(n, ast.Name)}
         mapping, rename, pre = {}, {}, []
         for p, v in actual.items():
-            if _simple_expr(v) and p not in callee_stored:
+            if _simple_expr(v) and p not in callee_stored and p not in variadic:
                 mapping[p] = v
             else:
                 nm = p if (p not in caller_names or (isinstance(v, ast.Name) and v.id == p)) else f"{p}{tag}"
